@@ -41,7 +41,7 @@ func ImageDataToPointCloud(images []colmap.Image) modeling.Mesh {
 }
 
 func LoadImageData(filename string) (modeling.Mesh, error) {
-	points, err := colmap.LoadImagesBinary(filename)
+	points, err := decode(func() ([]colmap.Image, error) { return colmap.LoadImagesBinary(filename) })
 	if err != nil {
 		return modeling.EmptyPointcloud(), err
 	}
